@@ -32,6 +32,14 @@ DEMOS = {
     ("C14", "change2"): ("sh", "{out}/demo/run_demo.sh without 2>&1 | tail -15; exit ${PIPESTATUS[0]}", "{out}/demo/run_demo.sh with 2>&1 | tail -15; exit ${PIPESTATUS[0]}"),
     ("C13", "change1"): ("py", "SNELDB_BIN", "demo_grant_leak.py"),
     ("C13", "change2"): ("py", "SNELDB_BIN", "demo_revoked_user_forged_sig.py"),
+    ("C15", "change1"): ("sh", "bash {out}/demo/run_demo.sh 2>&1 | tail -25; exit ${PIPESTATUS[0]}", None),
+    ("C15", "change2"): ("sh", "bash {out}/demo/run_demo.sh 2>&1 | tail -25; exit ${PIPESTATUS[0]}", None),
+    ("C16", "change1"): ("sh", "bash {out}/demo/run.sh 2>&1 | tail -25; exit ${PIPESTATUS[0]}", None),
+    ("C16", "change2"): ("sh", "bash {out}/demo/run.sh 2>&1 | tail -25; exit ${PIPESTATUS[0]}", None),
+    ("C17", "change1"): ("sh", "bash {out}/demo/run.sh 2>&1 | tail -25; exit ${PIPESTATUS[0]}", None),
+    ("C17", "change2"): ("sh", "bash {out}/demo/run.sh 2>&1 | tail -25; exit ${PIPESTATUS[0]}", None),
+    ("C18", "change1"): ("sh", "sh {out}/demo/run_demo.sh 2>&1 | tail -25; exit ${PIPESTATUS[0]}", None),
+    ("C18", "change2"): ("sh", "sh {out}/demo/run_demo.sh 2>&1 | tail -25; exit ${PIPESTATUS[0]}", None),
 }
 
 
@@ -61,7 +69,7 @@ def main():
                 # the demo script applies ../patch.diff itself and resets the tree: start from a clean tree
                 sh("git checkout -- .", wt)
                 cmd = b
-            rc, o = sh("bash -c %r" % cmd.format(out=out), wt, env, timeout=3000)
+            rc, o = sh("bash -c %r" % cmd.replace("{out}", out), wt, env, timeout=3000)
             return rc == 0, o[-1500:]
         if kind == "py":
             rc, o = sh("cargo build --offline --bin snel_db 2>&1 | tail -3", wt, env)
